@@ -314,6 +314,14 @@ func digest() string {
 			h.Write(d)
 		}
 	}
+	// ... and for the architecture the library picks by itself when the caller sets none (a property of the binary, not of the
+	// process that runs it)
+	for k := 0; k < 4; k++ {
+		p := basePolicy(k)
+		b, err := compileBytes(&p)
+		fmt.Fprintf(h, "default arch: err %v\n", err)
+		h.Write(b)
+	}
 	for _, f := range []seccomp.FilterFlag{0, 1, 2, 3, 7, 0x8003} {
 		fmt.Fprintln(h, f.String())
 	}
